@@ -8,7 +8,9 @@ import (
 	"reflect"
 	"sort"
 	"strings"
+	"sync"
 	"time"
+	"unsafe"
 )
 
 // Dump renders every field of the struct (recursively, depth-limited) that consists of plain data: strings,
@@ -32,7 +34,10 @@ func Dump(obj any, skip ...string) string {
 	return sb.String()
 }
 
-var timeType = reflect.TypeOf(time.Time{})
+var (
+	timeType    = reflect.TypeOf(time.Time{})
+	syncMapType = reflect.TypeOf(sync.Map{})
+)
 
 func plain(t reflect.Type, depth int) bool {
 	if depth > 4 {
@@ -79,6 +84,22 @@ func dump(sb *strings.Builder, v reflect.Value, depth int, skip map[string]bool)
 			}
 			fv := v.Field(i)
 			switch {
+			case f.Type == syncMapType && fv.CanAddr():
+				// a sync.Map cache: its keys (and plain values) are state like any other map's
+				m := reflect.NewAt(f.Type, unsafe.Pointer(fv.UnsafeAddr())).Interface().(*sync.Map)
+				var ks []string
+				m.Range(func(k, val any) bool {
+					s := fmt.Sprintf("%v", k)
+					if val != nil && plain(reflect.TypeOf(val), 0) {
+						var vb strings.Builder
+						dump(&vb, reflect.ValueOf(val), depth+1, skip)
+						s += ":" + vb.String()
+					}
+					ks = append(ks, s)
+					return true
+				})
+				sort.Strings(ks)
+				fmt.Fprintf(sb, "%s.syncmap=%v;", f.Name, ks)
 			case plain(f.Type, 0):
 				fmt.Fprintf(sb, "%s=", f.Name)
 				dump(sb, fv, depth+1, skip)
